@@ -463,7 +463,8 @@ class Exec:
         def do(slot):
             cur = slot.get()
             if cur.kind != A: cur = V(A, Arr([] if cur.kind == U else [cur])); slot.set(cur)
-            cur.p.seq.extend(copy_v(x) for x in vals)
+            items = [copy_v(x) for x in vals]          # all list items are values taken before the array changes (an item may mention the target)
+            cur.p.seq.extend(items)
         ri.write_primary(ri.f(a, 'array'), do)
 
     def s_ArrayPop(self, a):
